@@ -1,6 +1,7 @@
 package props
 
 import (
+	"os"
 	"go/ast"
 	"go/token"
 	"go/types"
@@ -696,4 +697,18 @@ func ruleAliasHygiene(c *core.Ctx, ids [3]string, pkgs ...string) {
 	for _, p := range pkgs {
 		ruleNoStaleElementPointers(c, ids[2], p)
 	}
+}
+
+// setInlineKeep switches on the normalisation of anchor functions: helpers
+// the rules do not name are transparent (PDFVERIF_NOINLINE=1 switches it off
+// for comparison).
+func setInlineKeep(prog *core.Program) {
+	if os.Getenv("PDFVERIF_NOINLINE") != "" {
+		return
+	}
+	keep := []string{}
+	for _, n := range anchorNames {
+		keep = append(keep, "."+n)
+	}
+	prog.InlineKeep = keep
 }
